@@ -18,7 +18,7 @@ From Coq Require Import List Arith Bool ZArith.
 From LV Require Import Common.Cases Align.DP Msa.Profile Msa.Merge Msa.Refine Msa.MsaSpec Msa.MsaExec
   Msa.ProfileProofs Msa.MergeProofs Msa.UpdateProofs Msa.RefineProofs Msa.MsaExecProofs Msa.Examples
   Msa.Alignments Msa.AlignmentsProofs Msa.Totality Msa.CalignOracle Msa.TreeOracle
-  Msa.AlignHistory Msa.AlignHistoryProofs.
+  Msa.AlignHistory Msa.AlignHistoryProofs Msa.AlignFuzzy Msa.AlignFuzzyProofs.
 Import ListNotations.
 Local Open Scope nat_scope.
 
@@ -192,6 +192,25 @@ Theorem C04_losslessb_spec :
 Proof. exact losslessb_spec. Qed.
 Print Assumptions C04_losslessb_spec.
 
+(* Alignments in fuzzy (partial-cognate) mode, library default split_on_tones=False: a word is a
+   list of morphemes with one cognate id each; splitting every stored alignment at the morpheme
+   separator gives one row per morpheme, each row de-gaps to its morpheme (so the stored alignment
+   loses nothing, also when a tone letter stands inside a morpheme), the rows of one multi-member
+   set share one length, morphemes outside such sets are unchanged *)
+Theorem C04_alignments_fuzzy_inv :
+  forall (MSA : list (list Z) -> option (list erow)) (ws : list fword) (col : list (nat * erow)),
+    msa_contract MSA -> NoDup (map fw_id ws) ->
+    align_fuzzy MSA ws = Some col ->
+    exists pcol, ungroup ws col = Some pcol /\ column_ok (explode ws) pcol.
+Proof. exact align_fuzzy_ok. Qed.
+Print Assumptions C04_alignments_fuzzy_inv.
+
+Theorem C04_fuzzy_okb_spec :
+  forall (ws : list fword) (col : list (nat * erow)),
+    fuzzy_okb ws col = true <-> exists pcol, ungroup ws col = Some pcol /\ column_ok (explode ws) pcol.
+Proof. exact fuzzy_okb_spec. Qed.
+Print Assumptions C04_fuzzy_okb_spec.
+
 (* ------------------------------------------------------------------ *)
 (* non-vacuity: an oracle that meets the contract for every input, and an object *)
 Example ex_oracle : oracle_valid (@block_pa num).
@@ -251,6 +270,17 @@ Qed.
 Example ex_unregistered_ref_raises :
   alm_step ex_words (Align 1 pad_msa) {| a_col := ex_col0; a_reg := [] |} = None.
 Proof. reflexivity. Qed.
+
+(* partial cognates: the first morpheme of words 5 and 2 is one set, the second morphemes another *)
+Example ex_fuzzy :
+  exists col, align_fuzzy pad_msa
+    [ {| fw_id := 5; fw_doc := 0; fw_cogs := [1; 2]; fw_morphs := [[1; 2; 9; 3]; [4]]%Z |};
+      {| fw_id := 2; fw_doc := 1; fw_cogs := [1; 2]; fw_morphs := [[1; 2]; [4; 5]]%Z |};
+      {| fw_id := 8; fw_doc := 1; fw_cogs := [3]; fw_morphs := [[6; 9; 7; 9]]%Z |} ] = Some col
+    /\ col = [ (5%nat, [Some 1; Some 2; Some 9; Some 3; Some 0; Some 4; None]);
+               (2%nat, [Some 1; Some 2; None; None; Some 0; Some 4; Some 5]);
+               (8%nat, [Some 6; Some 9; Some 7; Some 9]) ]%Z.
+Proof. eexists. vm_compute. split; reflexivity. Qed.
 
 (* the guards are real: plain-token mode + a refinement call that reaches the loop raises *)
 Example ex_plain_mode_raises :
